@@ -3296,6 +3296,149 @@ def _apply_decorator_factories(modname, tree, inv):
     return n_done
 
 
+# ------------------------------------------------------------------ N26 small record objects that do not leave the function
+
+def _record_classes(modname, tree, inv):
+    """NEW plain classes whose __init__ only stores its parameters in fields that nothing writes again, whose other methods are
+    plain (or classmethods used as alternative constructors) with names no other definition of the module has.
+    Prepares them: `x.m(a)` -> `K.m(x, a)`, classmethod constructors become static functions over the class itself.
+    -> {class name: (ClassDef, [field names in __init__ parameter order], {field: value expression over the parameters})}"""
+    out = {}
+    if inv is None:
+        return out
+    defs = {}
+    for x in ast.walk(tree):
+        if isinstance(x, FUNC):
+            defs[x.name] = defs.get(x.name, 0) + 1
+    derived = {b.id for c in tree.body if isinstance(c, ast.ClassDef) for b in c.bases if isinstance(b, ast.Name)}
+    parents = {}
+    for p_ in ast.walk(tree):
+        for c in ast.iter_child_nodes(p_):
+            parents[id(c)] = p_
+    for cls in [c for c in tree.body if isinstance(c, ast.ClassDef)]:
+        if cls.bases or cls.keywords or cls.decorator_list or cls.name in derived or any(k.startswith(f"{modname}:{cls.name}.") for k in inv):
+            continue
+        meths, ok = {}, True
+        for x in cls.body:
+            if isinstance(x, ast.FunctionDef):
+                cm = len(x.decorator_list) == 1 and isinstance(x.decorator_list[0], ast.Name) and x.decorator_list[0].id == "classmethod"
+                if x.decorator_list and not cm:
+                    ok = False
+                meths[x.name] = (x, cm)
+            elif not (isinstance(x, ast.Pass) or (isinstance(x, ast.Expr) and isinstance(x.value, ast.Constant))):
+                ok = False
+        if not ok or "__init__" not in meths or any(n_.startswith("__") and n_ != "__init__" for n_ in meths):
+            continue
+        init = meths["__init__"][0]
+        if init.args.vararg or init.args.kwarg or init.args.kwonlyargs:
+            continue
+        fields = {}
+        for st in _helper_body(init):
+            if isinstance(st, ast.Assign) and len(st.targets) == 1 and isinstance(st.targets[0], ast.Attribute) and isinstance(st.targets[0].value, ast.Name) and st.targets[0].value.id == "self" \
+                    and st.targets[0].attr not in fields and \
+                    ((isinstance(st.value, ast.Name) and st.value.id in {a.arg for a in init.args.args[1:]}) or
+                     (isinstance(st.value, ast.Constant) and isinstance(st.value.value, (int, str, float, bool, type(None))))):
+                # (only a parameter handed through or an immutable literal: `self.items = []` makes ONE list per object, a read of the
+                #  field cannot be replaced by the display)
+                fields[st.targets[0].attr] = st.value
+            else:
+                ok = False
+        if not ok or not fields:
+            continue
+        own = {id(x) for x in ast.walk(cls)}
+        if any(isinstance(x, ast.Attribute) and isinstance(x.ctx, (ast.Store, ast.Del)) and x.attr in fields and x not in [s_.targets[0] for s_ in _helper_body(init)] and
+               (id(x) in own or not (isinstance(x.value, ast.Name) and x.value.id == "self")) for x in ast.walk(tree)):
+            continue
+        others = {n_: m for n_, m in meths.items() if n_ != "__init__"}
+        if any(defs.get(n_, 0) != 1 or n_ in fields for n_ in others):
+            continue
+        if any(isinstance(n, ast.Name) and n.id in ("super", "__class__") for m, _c in others.values() for n in ast.walk(m)):
+            continue
+        # every mention of a method name in the module is a call on a plain name (instance methods) or on the class (classmethods)
+        for x in ast.walk(tree):
+            if isinstance(x, ast.Attribute) and x.attr in others and id(x) not in own:
+                p_ = parents.get(id(x))
+                is_call = isinstance(p_, ast.Call) and p_.func is x
+                if not is_call or not isinstance(x.value, ast.Name) or (others[x.attr][1] != (x.value.id == cls.name)):
+                    ok = False
+            elif isinstance(x, ast.Constant) and x.value in others:
+                ok = False
+        if not ok:
+            continue
+        for n_, (m, is_cm) in others.items():
+            if is_cm:
+                cname = m.args.args[0].arg
+                m.decorator_list = [ast.Name(id="staticmethod", ctx=ast.Load())]
+                m.args.args = m.args.args[1:]
+                for x in ast.walk(m):
+                    if isinstance(x, ast.Name) and x.id == cname:
+                        x.id = cls.name
+        for c in [x for x in ast.walk(tree) if isinstance(x, ast.Call) and id(x) not in own and isinstance(x.func, ast.Attribute) and x.func.attr in others and not others[x.func.attr][1]]:
+            recv = c.func.value
+            c.func = ast.copy_location(ast.Attribute(value=ast.Name(id=cls.name, ctx=ast.Load()), attr=c.func.attr, ctx=ast.Load()), c.func)
+            c.args = [recv] + c.args
+        ast.fix_missing_locations(tree)
+        out[cls.name] = (cls, [a.arg for a in init.args.args[1:]], fields)
+    return out
+
+
+def _scalarise_records(fn, records):
+    """`r = K(a, b)` where r is bound once and every use of it is a field read `r.f`: the reads become the values the fields were given
+    (through a temporary when the argument is not a plain name that stays bound to the same thing)"""
+    n_done = 0
+    if not records:
+        return 0
+    stores, loads = {}, {}
+    for n in _walk_local(fn):
+        if isinstance(n, ast.Name):
+            (stores if isinstance(n.ctx, (ast.Store, ast.Del)) else loads).setdefault(n.id, []).append(n)
+    nested = {x.id for n in ast.walk(fn) if isinstance(n, FUNC + (ast.Lambda,)) and n is not fn for x in ast.walk(n) if isinstance(x, ast.Name)}
+    parents = {}
+    for p_ in ast.walk(fn):
+        for c in ast.iter_child_nodes(p_):
+            parents[id(c)] = p_
+    for blk in _blocks(fn):
+        for i, st in enumerate(list(blk)):
+            if not (isinstance(st, ast.Assign) and len(st.targets) == 1 and isinstance(st.targets[0], ast.Name) and isinstance(st.value, ast.Call) and
+                    isinstance(st.value.func, ast.Name) and st.value.func.id in records):
+                continue
+            v = st.targets[0].id
+            cls, params, fields = records[st.value.func.id]
+            if len(stores.get(v, [])) != 1 or v in nested:
+                continue
+            uses = loads.get(v, [])
+            if not uses or not all(isinstance(parents.get(id(u)), ast.Attribute) and parents[id(u)].value is u and parents[id(u)].attr in fields and
+                                   isinstance(parents[id(u)].ctx, ast.Load) for u in uses):
+                continue
+            call = st.value
+            if call.keywords and any(k.arg is None for k in call.keywords) or any(isinstance(a, ast.Starred) for a in call.args) or len(call.args) > len(params):
+                continue
+            bound = dict(zip(params, call.args))
+            for k in call.keywords:
+                bound[k.arg] = k.value
+            if set(bound) != set(params):
+                continue
+            pre, pmap = [], {}
+            for p_ in params:
+                a = bound[p_]
+                names = {x.id for x in ast.walk(a) if isinstance(x, ast.Name)}
+                if isinstance(a, (ast.Name, ast.Constant)) and all(len(stores.get(n_, [])) <= 1 for n_ in names):
+                    pmap[p_] = a
+                else:
+                    nm = f"{p_}__{v}"
+                    pre.append(ast.copy_location(ast.Assign(targets=[ast.Name(id=nm, ctx=ast.Store())], value=a, lineno=st.lineno), st))
+                    pmap[p_] = ast.Name(id=nm, ctx=ast.Load())
+            for u in uses:
+                attr = parents[id(u)]
+                _replace_node(fn, attr, ast.copy_location(_Renamer(pmap).visit(copy.deepcopy(fields[attr.attr])), attr))
+            idx = blk.index(st)
+            blk[idx:idx + 1] = pre or [ast.copy_location(ast.Pass(), st)]
+            for x in pre:
+                ast.fix_missing_locations(x)
+            n_done += 1
+    return n_done
+
+
 # ------------------------------------------------------------------ N7 nested ifs without else -> one conjunction
 
 def _merge_nested_ifs(fn):
@@ -3693,6 +3836,7 @@ def normalize(modname, tree):
     stats["context_managers"] = _rewrite_context_managers(modname, tree, inv)
     stats["named_tuples"] = _named_tuples_to_tuples(modname, tree, inv)
     stats["container_methods"], container_classes = _container_methods_as_functions(modname, tree, inv)
+    records = _record_classes(modname, tree, inv)
     stats["properties"] = _properties_to_methods(modname, tree, inv)
     stats["decorators_applied"] = _apply_new_decorators(modname, tree, inv) + _apply_decorator_factories(modname, tree, inv)
     stats["devirtualised"] = _devirtualise(modname, tree, inv)
@@ -3736,6 +3880,9 @@ def normalize(modname, tree):
                 stats["comprehensions"] += _loops_to_comprehensions(n)          # loops whose body became one statement by the passes above
                 stats["rotated_loops"] = stats.get("rotated_loops", 0) + _rotate_loops(n)
                 progress += k + _splice_starred_literals(n)
+                k_rec = _scalarise_records(n, records)
+                stats["records"] = stats.get("records", 0) + k_rec
+                progress += k_rec
                 _expand_callable_choice(n)
                 k2 = _duplicate_tail(n)
                 if k2:
